@@ -180,7 +180,7 @@ def run_c13(ctx):
 
 
 def run_c17(ctx):
-    return [run_olh(ctx, 'olvm', twin_args(ctx, ['-histories', '60', '-blocks', '12', '-maxtxs', '8'], ['-histories', '1200', '-blocks', '20', '-maxtxs', '10']))]
+    return [run_olh(ctx, 'olvm', twin_args(ctx, ['-histories', '60', '-blocks', '12', '-maxtxs', '8'], ['-histories', '1200', '-blocks', '20', '-maxtxs', '10'])), funcs(ctx, '17')]
 
 
 def run_c04(ctx):
@@ -406,8 +406,8 @@ PROPS = {
         ],
         model_limits='handleBlockRewards is modelled from PullRewards to ConsumeRewards on decoded records (early error returns for a missing currency / undecodable power / missing pool list are not reachable from a valid genesis and not modelled); the calculator cache is private to the implementation, the driver threads its own copy per replica; the amount the implementation pulls is read from the application\'s own calculator object (cache included) by a PullRewards call on a throw-away State over the committed tree immediately before BeginBlock (same height, same records, so BeginBlock\'s own call returns the same amount and the cache is left as BeginBlock would leave it; an unprobed, never-restarted third replica checks this in every 5th history); chunk-matures-once is proved for chains without interval records (the running chain never writes one), interval records from an exported-state genesis are covered by the correspondence only'),
     'C17': dict(
-        lean_modules=['OLP.Props.C17', 'OLP.Props.C17Funcs'], namespaces=['OLP.Props.C17'],
-        required_theorems=['buyGas_cost_is_source', 'gasFinal_is_source', 'refund_credit_is_source', 'net_charge_is_gas_used_times_price', 'one_ledger', 'one_ledger_history', 'step_keeps_cache_empty', 'stale_cache_breaks_one_ledger',
+        lean_modules=['OLP.Props.C17', 'OLP.Props.C17Funcs'], lean_targets=['olpfuncs17'], namespaces=['OLP.Props.C17'],
+        required_theorems=['intrinsicGas_is_source', 'buyGas_cost_is_source', 'gasFinal_is_source', 'refund_credit_is_source', 'net_charge_is_gas_used_times_price', 'one_ledger', 'one_ledger_history', 'step_keeps_cache_empty', 'stale_cache_breaks_one_ledger',
                            'sender_debit_exact', 'feepool_credit_exact', 'gas_used_within_limit', 'recipient_credit_exact',
                            'created_contract_credit_exact', 'bystander_untouched', 'nonce_plus_one', 'precheck_failure_noop',
                            'checktx_changes_nothing', 'olvm_value_accounting', 'olvm_conserves_value', 'olvm_total_never_grows',
